@@ -143,7 +143,7 @@ fn main() {
         let mut g = Game::new(&mut tr);
         for (k, (c, gold, mn)) in roots.iter().enumerate() {
             if g.dead {
-                break;
+                g.dead = false; // the walk below that root was abandoned at a panic; go on with the next root
             }
             if k % nshards != shard {
                 continue;
